@@ -189,6 +189,10 @@ struct St {
 
 pub struct Sim {
     pub image: Image,
+    /// Which OS thread holds which shimmed lock exclusively — kept for every
+    /// thread, registered or not, so that a thread that re-locks what it holds
+    /// is reported instead of really deadlocking on the std mutex inside.
+    holders: Mutex<BTreeMap<usize, std::thread::ThreadId>>,
     st: Mutex<St>,
     cv: Condvar,
     /// Yield at every n-th byte read while a run is active (0 = never).
@@ -201,6 +205,7 @@ pub fn sim() -> &'static Sim {
     SIM.get_or_init(|| {
         let s: &'static Sim = Box::leak(Box::new(Sim {
             image: Image::load(),
+            holders: Mutex::new(BTreeMap::new()),
             st: Mutex::new(St {
                 active: false,
                 aborted: None,
@@ -269,6 +274,11 @@ impl Sim {
     }
 
     fn event(st: &mut St, me: usize, kind: &str, detail: u64) {
+        // After an abort the threads unwind concurrently, outside the baton:
+        // the log (and with it the fingerprint) is frozen at the abort.
+        if st.aborted.is_some() {
+            return;
+        }
         st.fp.u64(me as u64);
         st.fp.str(kind);
         st.fp.u64(detail);
@@ -511,7 +521,21 @@ impl Sim {
 
 impl Env for Sim {
     fn before_lock(&self, lock: usize, exclusive: bool, blocking: bool) {
-        let Some(me) = tid() else { return };
+        let Some(me) = tid() else {
+            // Outside the baton (solo reference executions, single-threaded
+            // checks): the only thing that can go wrong is re-entrancy.
+            let mine = self
+                .holders
+                .lock()
+                .unwrap_or_else(|e| e.into_inner())
+                .get(&lock)
+                .map(|t| *t == std::thread::current().id())
+                .unwrap_or(false);
+            if mine && blocking {
+                panic!("self-deadlock: the thread locks the provider while it already holds it");
+            }
+            return;
+        };
         self.yield_point(if blocking { "lock?" } else { "trylock?" }, exclusive as u64);
         let mut st = self.lock_st();
         if !st.active {
@@ -558,6 +582,12 @@ impl Env for Sim {
     }
 
     fn after_lock(&self, lock: usize, exclusive: bool, acquired: bool, poisoned: bool) {
+        if acquired && exclusive {
+            self.holders
+                .lock()
+                .unwrap_or_else(|e| e.into_inner())
+                .insert(lock, std::thread::current().id());
+        }
         let Some(me) = tid() else { return };
         let mut st = self.lock_st();
         if !st.active {
@@ -583,6 +613,9 @@ impl Env for Sim {
     }
 
     fn after_unlock(&self, lock: usize, exclusive: bool, panicking: bool) {
+        if exclusive {
+            self.holders.lock().unwrap_or_else(|e| e.into_inner()).remove(&lock);
+        }
         let Some(me) = tid() else { return };
         {
             let mut st = self.lock_st();
